@@ -289,3 +289,26 @@ example : Linearizable tableSpec (absT []) demoLog [demoRead] := by
     rfl
 
 end Regatta.Props.C10History
+
+namespace Regatta.Props.C10History
+open Regatta Regatta.Fsm Regatta.Refine Regatta.History
+
+/-- **a default (serializable) read reflects some prefix of the log and never a state that did not
+exist**: whatever replica answers it, having applied the first `seen` entries in whatever batches,
+the answer is the sorted map's on the table after exactly those entries -/
+theorem c10_default_read_is_a_prefix_state (cmds : List Entry) (hes : ∀ e ∈ cmds, EntryWF e)
+    (q : ReadReq) (hq : ReadWF q) (seen : Nat) (db : Db) (hrep : ReplicaAt cmds seen db) :
+    fsmRead db q = .ok (tableSpec.read (Spec.applyLog (absT []) (cmds.take seen)).1 q) := by
+  obtain ⟨batches, hne, hflat, hfold⟩ := hrep
+  have hb : ∀ b ∈ batches, b ≠ [] ∧ ∀ e ∈ b, EntryWF e := by
+    intro b hbm
+    refine ⟨hne b hbm, fun e he => hes e ?_⟩
+    have : e ∈ batches.flatten := List.mem_flatten.mpr ⟨b, hbm, he⟩
+    rw [hflat] at this
+    exact List.mem_of_mem_take this
+  obtain ⟨db', hf', hw', ha'⟩ := Regatta.Props.C01.c01_history_refines batches hb [] wf_nil
+  rw [hfold] at hf'
+  injection hf' with hf'; subst hf'
+  rw [fsmRead_refines db hw' q hq, ha', hflat]
+
+end Regatta.Props.C10History
